@@ -151,7 +151,7 @@ class Program:
             c, s = self.expr(n.left, env), self.expr(right, env)
             if c.ty != "char" or s.ty != "str" or c.eff or s.eff:
                 raise Untranslatable(ast.unparse(n))
-            t = "%s.contains %s" % (s.text, c.text)
+            t = "%s.contains %s" % (s.text if s.text.isidentifier() else "(%s)" % s.text, c.text)
             return E(t if isinstance(op, ast.In) else "!(%s)" % t, "bool")
         left = self.expr(n.left, env)
         binds = []
